@@ -8,4 +8,4 @@ for p in "$@"; do
   echo "--- $name vs $p"
   (cd /verif && env VERIF_NO_EVIDENCE=1 ${SKIPMC:+VERIF_SKIP_MC=1} ./check $p --tier ${TIER:-quick} 2>&1 | grep -E "VIOLATION|held on|VIOLATED|MACHINERY|^    C" | cut -c1-300 | head -${LINES_MAX:-8})
 done
-git checkout -- . ; git status --short | head -3
+git checkout -- . ; rm -f /repo/*.orig /repo/*.rej; git status --short | head -3
